@@ -56,6 +56,40 @@ def ovf_reenters(m):
     return False
 
 
+def brk_reenters(m):
+    """known-finding class cond-break-reenters-loop: a (conditional) break carried by a fall-through transition whose target falls
+    through - possibly via further breaks - back into the state the transition leaves from"""
+    def breaks(acts):
+        for a in acts:
+            if a['op'] == 'break':
+                yield a
+            elif a['op'] == 'cond':
+                for b in a['branches']:
+                    yield from breaks(b['acts'])
+    for qi, st in enumerate(m['states']):
+        for t in st['trans']:
+            if not t['fall']:
+                continue
+            for a in breaks(t['acts']):
+                seen, stack = set(), [a['to']]
+                while stack:
+                    s = stack.pop()
+                    if s in seen or s < 0 or s >= len(m['states']):
+                        continue
+                    seen.add(s)
+                    for t2 in m['states'][s]['trans']:
+                        if t2['fall']:
+                            if t2['tgt'] == qi or any(b['to'] == qi for b in breaks(t2['acts'])):
+                                return True
+                            stack.append(t2['tgt'])
+                            stack.extend(b['to'] for b in breaks(t2['acts']))
+    return False
+
+
+def known_spin(m):
+    return 'oos-handler-reenters' if ovf_reenters(m) else ('cond-break-reenters-loop' if brk_reenters(m) else None)
+
+
 def pinned(chk):
     import os
     for k in chk.known:
@@ -111,7 +145,7 @@ def run(tier, seed):
                 if okc:
                     done.add(r['kind'])
                     confirmed += 1
-                    fid = 'oos-handler-reenters' if (r['kind'] == 'SPIN' and ovf_reenters(p.m)) else None
+                    fid = known_spin(p.m) if r['kind'] == 'SPIN' else None
                     chk.violation('%s: %s %s never returns / yields for ever on input history %s' % (r['kind'], p.name, p.args, r['hist']),
                                   {'program': p.name, 'args': p.args, 'source': p.src, 'history': r['hist'], 'kind': r['kind'], 'binary': detail}, fid)
                 elif okc is False:
@@ -127,9 +161,21 @@ def run(tier, seed):
             nwalk += len(ins)
             for data, rc in cr:
                 hangs += 1
-                fid = 'oos-handler-reenters' if ovf_reenters(p.m) else None
+                fid = known_spin(p.m)
                 chk.violation('binary hung or died (rc=%s) during a byte-by-byte walk of %s %s on input %r' % (rc, p.name, p.args, data),
                               {'program': p.name, 'args': p.args, 'source': p.src, 'input_hex': data.hex()}, fid)
+        # every state x every byte and end() of wait / end programs under the result-protocol options (strict done, EOF, yield): a call
+        # that does not return is a driver hang, reported by the sweep
+        from props import c06
+        rows = (['-feof-support', '-fstrict-done-token-generation'], ['-feof-support', '-fstrict-done-token-generation', '-O3'],
+                ['-feof-support', '-fyield-support', '-fstrict-done-token-generation'], ['-feof-support', '-O0'])
+        witems = []
+        for i in range(8 if quick else 40):
+            sd = rng.randrange(1 << 30)
+            wsrc = (genprog.gen_wait_program(sd) if i % 4 != 3 else genprog.gen_end_program(sd))[1]
+            witems.append(('ret:%d' % sd, wsrc, rows[i % len(rows)]))
+        wprogs = [p for p in runner.compile_programs(witems, want=('machine', 'codegen')) if p.ok]
+        wcs = c06.c_stage(chk, wprogs, rng, 1, 'return-guard program') if wprogs else {'states': 0, 'transitions': 0, 'sweeps': 0, 'accepted': 0, 'binaries': 0}
         # reject side
         pairs = [(p, a) for p, a in zip(progs[:len(items)], asts) if p.ok]
         creports, cst, ccases = conform.explore(pairs, maxlen=8 if quick else 12, timeout=1500 if quick else 9000)
@@ -138,7 +184,7 @@ def run(tier, seed):
             z = [r for r in reps if r['kind'] == 'ZEROPROGRESS']
             if z:
                 zp += 1
-                fid = 'oos-handler-reenters' if ovf_reenters(p.m) else None
+                fid = known_spin(p.m)
                 chk.violation('accepted program whose procedural reading goes round without consuming input: %s %s after %s' % (p.name, p.args, z[0]['hist']),
                               {'program': p.name, 'args': p.args, 'source': p.src, 'history': z[0]['hist']}, fid)
         # bounded-exhaustive family: machines explored without building binaries (built lazily to confirm a report); reject side on all accepted
@@ -147,7 +193,7 @@ def run(tier, seed):
         e_progs = runner.compile_programs(e_items, want=('machine', 'codegen'))
         e_ok = [p for p in e_progs if p.ok]
         est, ecount, econf = enumfam.machine_reports(chk, e_ok, ('SPIN', 'YIELDLOCK'),
-                                                     lambda q, r, d: 'oos-handler-reenters' if (r['kind'] == 'SPIN' and ovf_reenters(q.m)) else None,
+                                                     lambda q, r, d: known_spin(q.m) if r['kind'] == 'SPIN' else None,
                                                      budget=4000 if quick else 20000, timeout=1600 if quick else 9000)
         e_pairs = [(p, a) for p, a in zip(e_progs, e_asts) if p.ok]
         ecreports, ecst, _ = conform.explore(e_pairs, maxlen=6 if quick else 8, timeout=1500 if quick else 9000)
@@ -158,14 +204,14 @@ def run(tier, seed):
             if z:
                 zp += 1
                 chk.violation('accepted program whose procedural reading goes round without consuming input: %s %s after %s' % (p.name, p.args, z[0]['hist']),
-                              {'program': p.name, 'args': p.args, 'source': p.src, 'history': z[0]['hist']}, 'oos-handler-reenters' if ovf_reenters(p.m) else None)
+                              {'program': p.name, 'args': p.args, 'source': p.src, 'history': z[0]['hist']}, known_spin(p.m))
         kinds.update(ecount)
         confirmed += econf
         st['states'] += est['states'] + ecst['states']
         st['transitions'] += est['transitions'] + ecst['transitions']
         chk.coverage = {
-            'enumerated_family': enumfam.describe(e_info, len(e_ok)),
-            'states': st['states'] + cst['states'], 'transitions': st['transitions'] + cst['transitions'],
+            'enumerated_family': enumfam.describe(e_info, len(e_ok)), 'return_guard_sweeps': wcs,
+            'states': st['states'] + cst['states'] + wcs['states'], 'transitions': st['transitions'] + cst['transitions'],
             'traces_validated_against_impl': confirmed + nwalk,
             'samples': [{'program': c['p'].name, 'args': c['p'].args, 'symbols': c['syms'], 'max_input_length': c['maxlen']} for c in cases[:3]],
             'programs': len(ok), 'machine_reports': dict(kinds), 'confirmed_on_binary': confirmed, 'guarded_walks': nwalk, 'hangs_in_walks': hangs,
